@@ -154,6 +154,9 @@ func exprOf(a Arg, id string, pre *[]string, needID *bool) string {
 	case "capture":
 		// the standard output of another command call, captured in the same statement
 		return "@\"./say\"(" + tsQuote(a.Value) + ")"
+	case "traced":
+		// the result of a function that reports its evaluation on standard output (family T)
+		return "tr(" + tsQuote(a.Value) + ")"
 	}
 	return tsQuote(a.Value)
 }
@@ -251,6 +254,13 @@ func (c Case) source() string {
 	if needID {
 		sb.WriteString("func id(s string) string {\n\treturn s\n}\n\n")
 	}
+	for _, st := range c.Stages {
+		for _, a := range st {
+			if a.Origin == "traced" && !strings.Contains(sb.String(), "func tr(") {
+				sb.WriteString("func tr(s string) string {\n\tprint(\"ev\", s)\n\treturn s\n}\n\n")
+			}
+		}
+	}
 	if c.Warm {
 		sb.WriteString("wo, we, wc := @\"./say\"(\"warm\", \"up\")\nprint(wo, we, wc)\n")
 	}
@@ -322,6 +332,16 @@ func (c Case) expect() (stdout string, logs map[string]string, skip string) {
 			// the next print starts on the same line; that is what exact pass-through means
 		}
 	}
+	// every argument of every stage is evaluated, in source order, before the chain runs
+	ev := ""
+	for _, st := range c.Stages {
+		for _, a := range st {
+			if a.Origin == "traced" {
+				ev += "ev " + a.Value + "\n"
+			}
+		}
+	}
+	stdout = ev + stdout
 	if c.Warm {
 		stdout = "warm  0\n" + stdout
 	}
@@ -819,7 +839,49 @@ func pipelineCases(thorough bool) []Case {
 			}
 		}
 	}
+	// (T) evaluation of the arguments across the stages of a chain: chains of 1..3 stages with one or two arguments
+	// per stage, every vector over {literal, traced} with at least two traced arguments (each traced argument
+	// reports its evaluation on standard output; the values differ, so the order is visible)
+	vals := []string{"a", "B7", "c3", "d", "e5", "f"}
+	for L := 1; L <= 3; L++ {
+		for k := 1; k <= 2; k++ {
+			slots := L * k
+			for v := 0; v < 1<<slots; v++ {
+				if popcount(v) < 2 {
+					continue
+				}
+				for _, m := range modes {
+					var stages [][]Arg
+					for si := 0; si < L; si++ {
+						st := []Arg{aux("exit:0")}
+						for ai := 0; ai < k; ai++ {
+							sl := si*k + ai
+							o := "literal"
+							if v&(1<<sl) != 0 {
+								o = "traced"
+							}
+							st = append(st, Arg{Name: vals[sl], Value: vals[sl], Origin: o})
+						}
+						stages = append(stages, st)
+					}
+					coord := fmt.Sprintf("traced-arguments pipeline=%d args-per-stage=%d traced-mask=%d mode=%s", L, k, v, m)
+					out = append(out, Case{Kind: "pipeline", Stages: stages, Mode: m, Coord: coord})
+					if L*k <= 4 {
+						out = append(out, Case{Kind: "pipeline", Stages: stages, Mode: m, Coord: coord + " ctx=function", InFunc: true})
+					}
+				}
+			}
+		}
+	}
 	return out
+}
+
+func popcount(x int) int {
+	n := 0
+	for ; x != 0; x &= x - 1 {
+		n++
+	}
+	return n
 }
 
 // targetVectors lists (targets, form) for every vector over {named, blank}^3 in the := and var forms and, for the
@@ -1136,7 +1198,7 @@ func Run() int {
 		r.Set("exhaustive", false)
 		r.Set("cap_hit", capReason)
 	}
-	r.Set("rule", "a case = one TypeShell program, transpiled by the real transpiler; BASH PHASE (one call chain of probe stages per program, run by the real bash in an empty environment): (A) every literal argument list up to the tier's length over the representative strings, (B) every origin vector over {literal,var,concat,call,capture} for lists of length 1-2 (length 3 over {literal,var} in thorough), (B') lists of length 2 (every origin vector) and 3 (origins literal/call/capture) as the SECOND command call of the program, after a captured call; (C) every list of length 4-5 over {a, empty, 'b c', *} all-literal and all-variable, each uncaptured and captured; (D) chains of 1..3 stages x argument pattern x last stage's own line with / without line end / absent (a program that prints nothing) x status of earlier stages {0,3} x status of the last stage (tier's set) x captured/uncaptured x top level / function body; (E) the TARGET VECTOR of a capturing definition: each of the three targets named or the blank name _ (8 vectors) x form {:=, var, assignment to existing variables where _ can be typed} x top level / function body x chain length 1..3 x argument pattern x line end present/absent x first-stage status {0,3} x last status, and every passing captured single-argument cell under the 7 other vectors: captured output is never printed and the named targets hold output and status, whatever the targets are called; BATCH PHASE (the emitted .bat interpreted by verif/cmdmodel, the probe programs installed as its external-program hook; argument alphabet cmd-neutral: letters, digits, a blank inside a literal): (b-A) single-argument cells {a,B7} x 5 origins + 'b c' literal/var, every list of 2 (thorough 3) over the passing cells, (b-D) chains as in (D) with statuses {0,1,3,255} (thorough 0..255), (b-S) TWO and THREE call chains per run: every ordered pair and triple over a 10-site alphabet (output of one line / several / none, status zero / non-zero, captured / uncaptured, quoted and computed arguments, chain length 1-3), (b-L) one site executed 2 and 3 times in a loop and in a function, a function's site with every other site between its two calls, (b-T) the target vectors and forms of (E) on every captured alphabet site alone, repeated in a loop / function and between two other captured calls; distinct by coordinates; every case compares the argv record of every program start, stdout, the captured status, stderr (bash) and the script's exit status with the model of the probe")
+	r.Set("rule", "a case = one TypeShell program, transpiled by the real transpiler; BASH PHASE (one call chain of probe stages per program, run by the real bash in an empty environment): (A) every literal argument list up to the tier's length over the representative strings, (B) every origin vector over {literal,var,concat,call,capture} for lists of length 1-2 (length 3 over {literal,var} in thorough), (B') lists of length 2 (every origin vector) and 3 (origins literal/call/capture) as the SECOND command call of the program, after a captured call; (C) every list of length 4-5 over {a, empty, 'b c', *} all-literal and all-variable, each uncaptured and captured; (D) chains of 1..3 stages x argument pattern x last stage's own line with / without line end / absent (a program that prints nothing) x status of earlier stages {0,3} x status of the last stage (tier's set) x captured/uncaptured x top level / function body; (T) chains of 1..3 stages with one or two arguments per stage, every vector over {literal, traced} with at least two traced arguments - a traced argument is the result of a function that reports its evaluation, so the order in which the arguments of all stages are evaluated (source order, all before the chain runs) is part of the expected output; (E) the TARGET VECTOR of a capturing definition: each of the three targets named or the blank name _ (8 vectors) x form {:=, var, assignment to existing variables where _ can be typed} x top level / function body x chain length 1..3 x argument pattern x line end present/absent x first-stage status {0,3} x last status, and every passing captured single-argument cell under the 7 other vectors: captured output is never printed and the named targets hold output and status, whatever the targets are called; BATCH PHASE (the emitted .bat interpreted by verif/cmdmodel, the probe programs installed as its external-program hook; argument alphabet cmd-neutral: letters, digits, a blank inside a literal): (b-A) single-argument cells {a,B7} x 5 origins + 'b c' literal/var, every list of 2 (thorough 3) over the passing cells, (b-D) chains as in (D) with statuses {0,1,3,255} (thorough 0..255), (b-S) TWO and THREE call chains per run: every ordered pair and triple over a 10-site alphabet (output of one line / several / none, status zero / non-zero, captured / uncaptured, quoted and computed arguments, chain length 1-3), (b-L) one site executed 2 and 3 times in a loop and in a function, a function's site with every other site between its two calls, (b-T) the target vectors and forms of (E) on every captured alphabet site alone, repeated in a loop / function and between two other captured calls; distinct by coordinates; every case compares the argv record of every program start, stdout, the captured status, stderr (bash) and the script's exit status with the model of the probe")
 	r.Assumef("Batch target: there is no cmd.exe on this machine; the emitted script runs under verif/cmdmodel (rule 12: call PROGRAM, pipes between programs and the capture helper's for /f over cmd /V:ON /C are interpreted from the emitted text for cmd-neutral command lines; the probe programs are a function installed as the model's hook); every run the model refuses is counted by rule in batch_programs_the_cmd_model_refused_by_rule and never judged")
 	r.Assumef("whether a capturing definition with a given vector of named / blank targets is ACCEPTED is not a clause of this property: rejected programs of the target-vector families are counted, not reported")
 	r.Assumef("the sandbox directory contains the probes p1 p2 p3, a directory log and a one-letter file x, so that unquoted glob characters have something to match")
